@@ -709,10 +709,12 @@ func init() {
 			})
 		}
 
-		// 3. records inside documents (INDI, FAM with HUSB / WIFE / CHIL): copy of every record and
-		// of every role node on its own (the latter panics: no family was visited)
+		// 3. records inside documents (INDI, FAM with HUSB / WIFE / CHIL): copy of every record;
+		// c07round2 (c07b.go): copies of any node of a document — role nodes on their own included —
+		// into an empty document and into the document itself, and the nil document
 		nd := c.N(150, 3000)
 		for i := 0; i < nd; i++ {
+			c07round2(c, i)
 			text := c07document(r)
 			doc, err := gedcom.NewDocumentFromString(text)
 			if err != nil {
@@ -721,13 +723,6 @@ func init() {
 			}
 			for _, rec := range doc.Nodes() {
 				c07copyCase(c, rec, abstractNode(rec), "record:"+rec.Tag().Tag())
-				if rec.Tag().Tag() == "FAM" {
-					for _, k := range rec.Nodes() {
-						if r.Chance(1, 3) {
-							c07copyCase(c, k, abstractNode(k), "role:"+k.Tag().Tag())
-						}
-					}
-				}
 				trec := abstractNode(rec)
 				text2 := text
 				c07mutCase(c, func() gedcom.Node {
@@ -757,9 +752,11 @@ func init() {
 				}
 			}
 		}
+		// 4. nil nodes
+		c07nilCases(c)
 		c.Notes = append(c.Notes,
 			"DATE values: "+fmt.Sprint(len(c07TameDates))+" on which DateRange.Equals is an equivalence, "+fmt.Sprint(len(c07WildDates))+" constraint-bearing (every 4th tree)",
-			"not covered: nodes built with a nil document; NodesWithTag cache staleness after DeleteNode/SetNodes (C13)")
+			"not covered: NodesWithTag cache staleness after DeleteNode/SetNodes (C13); role nodes whose family is not a record of the document")
 	}
 }
 
